@@ -122,7 +122,7 @@ Definition const_unop (op : unop) (k : kind) (a : cval) : cres :=
   | UNeg, CInt z => CV (CInt (- z)) | UNeg, CFloat q => CV (CFloat (Qred (Qopp q)))
   | UPlus, CInt z => CV a | UPlus, CFloat q => CV a
   | UXor, CInt z =>
-      if is_unsigned_kind k then CV (CInt (Z.lxor z (2 ^ bits_of k - 1)))   (* z &^ ... : ^z masked to prec bits *)
+      if is_unsigned_kind k then CV (CInt (Z.ldiff (2 ^ bits_of k - 1) z))   (* go/constant: (^z) &^ (-1 << prec), also for z outside the type's range *)
       else CV (CInt (- z - 1))
   | UNot, CBool b => CV (CBool (negb b))
   | _, _ => CPanic
